@@ -591,9 +591,12 @@ int main(int argc, char** argv) {
                         for (size_t j = 0; j < n; ++j) {
                             size_t k = std::stoul(t[pos + 2 + 2 * j]); float val = of_hex32(t[pos + 3 + 2 * j]);
                             if (k >= cx.vars.size()) continue;
-                            bool in_deck = E.getDeck()->vars.right.find(cx.vars[k].id()) != E.getDeck()->vars.right.end();
-                            if (in_deck && !(vars[cx.vars[k].id()] == val)) expect = true;
-                            upd[cx.vars[k].id()] = val; vars[cx.vars[k].id()] = val;
+                            upd[cx.vars[k].id()] = val;          // a std::map: the last value per key wins
+                        }
+                        for (auto& u : upd) {
+                            bool in_deck = E.getDeck()->vars.right.find(u.first) != E.getDeck()->vars.right.end();
+                            if (in_deck && !(vars[u.first] == u.second)) expect = true;
+                            vars[u.first] = u.second;
                         }
                         bool changed = E.updateVars(upd);
                         if (changed != expect) { ++nbad; if (firstbad.empty()) firstbad = " q" + std::to_string(qi) + ":updateVars flag"; }
